@@ -118,7 +118,10 @@ def estimate(  # noqa: PLR0913
             )
         G = [np.empty(())] * model.ndims
         nsamples = data_subs.shape[0]
-        for k in range(model.ndims):
+        if data_subs.size == 0:
+            # An empty sample contributes nothing to the gradient
+            G = [np.zeros_like(factor) for factor in model.factor_matrices]
+        for k in range(model.ndims if data_subs.size > 0 else 0):
             # The row of each element is the row index to accumulate in the gradient.
             # The columns are the corresponding samples. They are in order because they
             # match the vector of samples to be multiplied on the right.
